@@ -27,7 +27,7 @@ Definition m_n (m : mstate) : N :=
 Definition idx (a : ast) : N := mix [(32, pctag_n (x_pc a)); (16, sst_n (x_cs a)); (16, sst_n (x_ss a))].
 Definition acode (a : ast) : N :=
   mix [(8192, idx a); (512, m_n (x_m a)); (2, b2n (x_up a)); (2, b2n (x_ab a)); (2, b2n (x_rqe a)); (2, b2n (x_rqf a));
-       (2, b2n (x_rsf a)); (2, b2n (x_live a)); (2, b2n (x_rs a)); (2, b2n (x_rq a)); (2, b2n (x_tun a)); (2, b2n (x_cr a));
+       (2, b2n (x_rsf a)); (2, b2n (x_live a)); (2, b2n (x_rs a)); (2, b2n (x_rq a)); (2, b2n (x_qb a)); (2, b2n (x_pb a)); (2, b2n (x_tun a)); (2, b2n (x_cr a));
        (2, b2n (x_ve a)); (2, b2n (x_vg a))].
 
 Definition m_eqb (a b : mstate) : bool :=
@@ -38,7 +38,8 @@ Definition ast_eqb (a b : ast) : bool :=
   N.eqb (pctag_n (x_pc a)) (pctag_n (x_pc b)) && sst_eqb (x_cs a) (x_cs b) && sst_eqb (x_ss a) (x_ss b) && m_eqb (x_m a) (x_m b)
   && Bool.eqb (x_up a) (x_up b) && Bool.eqb (x_ab a) (x_ab b) && Bool.eqb (x_rqe a) (x_rqe b)
   && Bool.eqb (x_rqf a) (x_rqf b) && Bool.eqb (x_rsf a) (x_rsf b) && Bool.eqb (x_live a) (x_live b)
-  && Bool.eqb (x_rs a) (x_rs b) && Bool.eqb (x_rq a) (x_rq b) && Bool.eqb (x_tun a) (x_tun b)
+  && Bool.eqb (x_rs a) (x_rs b) && Bool.eqb (x_rq a) (x_rq b) && Bool.eqb (x_qb a) (x_qb b)
+  && Bool.eqb (x_pb a) (x_pb b) && Bool.eqb (x_tun a) (x_tun b)
   && Bool.eqb (x_cr a) (x_cr b) && Bool.eqb (x_ve a) (x_ve b) && Bool.eqb (x_vg a) (x_vg b).
 
 Lemma sst_eqb_eq a b : sst_eqb a b = true -> a = b.
@@ -68,10 +69,10 @@ Qed.
 Definition all_aev : list aev :=
   flat_map (fun i => flat_map (fun c => flat_map (fun h => [AReqHeaders i c h true; AReqHeaders i c h false])
                                                 [true; false]) [true; false]) [true; false]
-  ++ [AReqData; AReqEOM; AReqErr; ARespHeaders true true; ARespHeaders true false; ARespHeaders false true;
-      ARespHeaders false false; ARespData; ARespEOM; ARespErr].
+  ++ [AReqData true; AReqData false; AReqEOM; AReqErr; ARespHeaders true true; ARespHeaders true false; ARespHeaders false true;
+      ARespHeaders false false; ARespData true; ARespData false; ARespEOM; ARespErr].
 Lemma all_aev_complete e : In e all_aev.
-Proof. destruct e as [[] [] [] []| | | |[] []| | |]; vm_compute; tauto. Qed.
+Proof. destruct e as [[] [] [] []|[]| | |[] []|[]| |]; vm_compute; tauto. Qed.
 
 Definition a_stopped (a : ast) : bool := x_tun a || x_cr a.
 Definition is_pnone (p : pctag) : bool := match p with PNone => true | _ => false end.
@@ -106,14 +107,15 @@ Definition a_init : ast := abs (new_stream 1).
 Definition SEARCH : list ast * nat := Eval vm_compute in bfs 200 [a_init] (PositiveSet.singleton (pcode a_init)) [].
 Definition ALL : list ast := Eval vm_compute in fst SEARCH.
 
-(* ---------- the table, bucketed by (pc, client_state, server_state) *)
-Definition key (a : ast) : positive := N.succ_pos (idx a).
+(* ---------- the table *)
+(* keyed by the full code: a bucket holds the states with that code (one, unless codes collide) *)
+Definition key (a : ast) : positive := pcode a.
 Definition add_b (m : PositiveMap.t (list ast)) (a : ast) : PositiveMap.t (list ast) :=
   PositiveMap.add (key a) (a :: match PositiveMap.find (key a) m with Some l => l | None => [] end) m.
-Definition BM : PositiveMap.t (list ast) := Eval vm_compute in fold_left add_b ALL (PositiveMap.empty _).
+Time Definition BM : PositiveMap.t (list ast) := Eval vm_compute in fold_left add_b ALL (PositiveMap.empty _).
 Definition okb (a : ast) : bool :=
   match PositiveMap.find (key a) BM with Some l => existsb (ast_eqb a) l | None => false end.
-Definition ELEMS : list ast := Eval vm_compute in flat_map snd (PositiveMap.elements BM).
+Time Definition ELEMS : list ast := Eval vm_compute in flat_map snd (PositiveMap.elements BM).
 
 Lemma okb_In a : okb a = true -> In a ELEMS.
 Proof.
@@ -135,3 +137,91 @@ Proof.
 Qed.
 Lemma okb_init : okb a_init = true.
 Proof. vm_compute. reflexivity. Qed.
+
+(* ---------- lifting to the model: Inv is preserved by every transition of a stream, for all inputs *)
+Definition Inv (s : stream) : Prop := okb (abs s) = true.
+
+Lemma Inv_new id : Inv (new_stream id).
+Proof. exact okb_init. Qed.
+
+Lemma abs_upd_queue q s : abs (upd_queue q s) = abs s.
+Proof. destruct s; reflexivity. Qed.
+Lemma abs_upd_pc_none s : abs (upd_pc None s) = sx_pc PNone (abs s).
+Proof. destruct s; reflexivity. Qed.
+Lemma pnone_iff s : is_pnone (x_pc (abs s)) = negb (is_some (pc s)).
+Proof. destruct s as [? ? ? p]; destruct p as [k|]; [destruct k|]; reflexivity. Qed.
+Lemma stopped_abs s : a_stopped (abs s) = stopped s.
+Proof. destruct s; reflexivity. Qed.
+
+Lemma succs_event a e a' : is_pnone (x_pc a) = true -> a_stopped a = false -> In a' (a_run_event e a) -> In a' (succs a).
+Proof.
+  intros H1 H2 H. unfold succs. rewrite H1, H2. apply in_or_app. right. apply in_or_app. right.
+  apply in_flat_map. exists e. split; [apply all_aev_complete | exact H].
+Qed.
+Lemma succs_crash a a' : is_pnone (x_pc a) = true -> a_stopped a = false -> In a' (a_crash a) -> In a' (succs a).
+Proof. intros H1 H2 H. unfold succs. rewrite H1, H2. apply in_or_app. right. apply in_or_app. left. exact H. Qed.
+Lemma succs_resume a ok a' : is_pnone (x_pc a) = false -> a_stopped a = false ->
+  In a' (a_resume (x_pc a) ok (sx_pc PNone a)) -> In a' (succs a).
+Proof.
+  intros H1 H2 H. unfold succs. rewrite H1, H2. apply in_or_app. right.
+  apply in_flat_map. exists ok. split; [destruct ok; simpl; auto | exact H].
+Qed.
+Lemma succs_act a a' : is_pnone (x_pc a) = false -> In a' (a_apply_act a) -> In a' (succs a).
+Proof. intros H1 H. unfold succs. rewrite H1. apply in_or_app. left. exact H. Qed.
+
+Lemma Inv_event o s e : Inv s -> pc s = None -> stopped s = false -> Inv (fst (run_event o s e)).
+Proof.
+  intros H Hpc Hst. unfold Inv in *. apply (okb_succ (abs s)); [exact H|].
+  apply (succs_event _ (aev_of o e)); [rewrite pnone_iff, Hpc; reflexivity | rewrite stopped_abs; exact Hst | apply run_event_s].
+Qed.
+
+Lemma Inv_crash s : Inv s -> pc s = None -> stopped s = false -> Inv (fst (crash s)).
+Proof.
+  intros H Hpc Hst. unfold Inv in *. apply (okb_succ (abs s)); [exact H|].
+  apply succs_crash; [rewrite pnone_iff, Hpc; reflexivity | rewrite stopped_abs; exact Hst | apply crash_s].
+Qed.
+
+Lemma Inv_resume o k inp s : Inv s -> pc s = Some k -> stopped s = false -> Inv (fst (resume o k inp (upd_pc None s))).
+Proof.
+  intros H Hpc Hst. unfold Inv in *. apply (okb_succ (abs s)); [exact H|].
+  apply (succs_resume _ (ok_of inp)); [rewrite pnone_iff, Hpc; reflexivity | rewrite stopped_abs; exact Hst |].
+  pose proof (resume_s o k inp (upd_pc None s)) as R. rewrite abs_upd_pc_none in R.
+  replace (x_pc (abs s)) with (tag_of (Some k)) by (destruct s; simpl in *; subst; reflexivity).
+  exact R.
+Qed.
+
+Lemma Inv_act h a s : Inv s -> is_some (pc s) = true -> Inv (apply_act h a s).
+Proof.
+  intros H Hpc. unfold Inv in *. apply (okb_succ (abs s)); [exact H|].
+  apply succs_act; [rewrite pnone_iff, Hpc; reflexivity | apply apply_act_s].
+Qed.
+
+Lemma Inv_queue q s : Inv s -> Inv (upd_queue q s).
+Proof. unfold Inv. rewrite abs_upd_queue. auto. Qed.
+
+Lemma Inv_drain o q : forall s acc, Inv s -> Inv (fst (drain o s q acc)).
+Proof.
+  induction q as [|e q IH]; intros s acc H; simpl.
+  - apply Inv_queue, H.
+  - destruct (is_some (pc s) || stopped s) eqn:E.
+    + apply Inv_queue, H.
+    + apply orb_false_elim in E. destruct E as [E1 E2].
+      destruct (run_event o (upd_queue q s) e) as [s1 c1] eqn:R.
+      apply IH. change s1 with (fst (s1, c1)). rewrite <- R.
+      apply Inv_event; [apply Inv_queue, H | | ].
+      * destruct s as [? ? ? p]; destruct p; [discriminate | reflexivity].
+      * destruct s; exact E2.
+Qed.
+
+Theorem Inv_handle o s inp : Inv s -> Inv (fst (stream_handle o s inp)).
+Proof.
+  intros H. unfold stream_handle. destruct (stopped s) eqn:Hst; [exact H|].
+  assert (D : forall k, pc s = Some k ->
+              Inv (fst (let '(s1, c1) := resume o k inp (upd_pc None s) in drain o s1 (queue s1) c1))).
+  { intros k Hk. pose proof (Inv_resume o k inp s H Hk Hst) as R.
+    destruct (resume o k inp (upd_pc None s)) as [s1 c1]. apply Inv_drain. exact R. }
+  destruct inp as [e | | c].
+  - destruct (pc s) eqn:Hpc; [apply Inv_queue, H | apply Inv_event; assumption].
+  - destruct (pc s) eqn:Hpc; [apply D; reflexivity | apply Inv_crash; assumption].
+  - destruct (pc s) eqn:Hpc; [apply D; reflexivity | apply Inv_crash; assumption].
+Qed.
